@@ -79,6 +79,8 @@ func aliasPartners(r *rand.Rand, pool []VarSpec) []VarSpec {
 		"F.Arr[0]": "F.Arr[F.Idx]", "F.Arr[1]": "F.Arr[F.Idx]", "F.Arr[F.Idx]": "F.Arr[0]",
 		`F.M["k1"]`: "F.M[F.Key]", `F.M["k2"]`: "F.M[F.Key]", "F.M[F.Key]": `F.M["k1"]`,
 		"F.PArr[0].X": "F.PArr[F.Idx].X", "F.PArr[F.Idx].X": "F.PArr[0].X",
+		"F.PArr[0].Sub.V": "F.PArr[F.Idx].Sub.V", "F.PArr[F.Idx].Sub.V": "F.PArr[0].Sub.V",
+		`F.MP["a"].Sub.V`: "F.MP[F.MKey].Sub.V", "F.MP[F.MKey].Sub.V": `F.MP["a"].Sub.V`, `F.MP["a"].X`: `F.MP["a"].Sub.V`,
 		"F.Arr[F.Idx + 1]": "F.Arr[1]", "F.Idx": "F.Arr[F.Idx + 1]", `F.M["k" + (F.Idx + 1)]`: `F.M["k1"]`,
 	}
 	have := map[string]bool{}
